@@ -97,6 +97,14 @@ let run (path : string) =
            | 3 ->
              let (k, items) = restore_code (counter_restore the_table row.p_mod row.p_byte) in
              let its = L.filter_map (fun b -> Hashtbl.find_opt stats (p.m, int_of_z b)) items in
+             (* the records the counter is computed from share their prefix with records imported from
+                OTHER fields (auction V1: surplus, debt and dutch auctions all live under prefix 17, the
+                counter is the id of the last DUTCH auction): the prefix dump does not tell them apart, so
+                the value is not predicted (the prefix itself is still judged by holds_C20_prefix) *)
+             let shared b =
+               L.length (L.filter (fun r -> ocaml_of_coq r.i_mod = p.m && r.i_arg = AFields &&
+                                            L.exists (fun w -> int_of_z w = int_of_z b) r.i_writes) the_table.t_imp) >= 2 in
+             let k = if L.exists shared items then z_of_int 0 else k in
              let expected = (match int_of_z k with
                  | 1 -> Some (L.fold_left (fun a q -> Z.max a q.max_n) Z.zero its)
                  | 2 -> Some (L.fold_left (fun _ q -> q.last_n) Z.zero its)
@@ -135,6 +143,32 @@ let run (path : string) =
         incr steps; bump ("import:" ^ cls);
         if cls <> "ok" then
           predfail ~case:!case ~step:!steps ~pred:"import_no_panic" ~kf:"none" ~detail:(m ^ "_InitGenesis_" ^ cls)
+      | "imp" :: m :: cls :: _ ->
+        (* the whole-application lines: app-export / app-validate / app *)
+        incr steps; bump ("import:" ^ cls);
+        if cls <> "ok" then
+          predfail ~case:!case ~step:!steps ~pred:"import_no_panic" ~kf:"none" ~detail:(m ^ "_" ^ cls)
+      | "contd" :: _i :: name :: co :: cn :: ido :: idn :: bo :: bn :: _n :: deps ->
+        (* a step of the rich workload: the content of every DeFi module store (outside the prefixes that
+           already differed) and every account's balance change; attributed to the first ACTIVE known
+           hole among the prefixes that differed before the step in the modules the step depends on *)
+        flush ();
+        incr steps; incr cont_seen; bump ("cont:" ^ name); bump ("class:" ^ co);
+        let ok = holds_C20_step (z_of_int (class_code co)) (z_of_int (class_code cn)) (z_of_string ido) (z_of_string idn)
+            (z_of_string bo) (z_of_string bn) in
+        if not ok then begin
+          let rec first = function
+            | m :: b :: rest ->
+              (match Hashtbl.find_opt rows (m, int_of_string b) with
+               | Some row ->
+                 let c = int_of_z (kf_C20_class row.p_mod row.p_byte) in
+                 if c = 0 then first rest else Printf.sprintf "kf_C20_%d" c
+               | None -> first rest)
+            | _ -> "none" in
+          let kf = first deps in
+          predfail ~case:!case ~step:!steps ~pred:"holds_C20_step" ~kf
+            ~detail:(Printf.sprintf "%s_class=%s/%s_stores_%s_baldelta_%s" name co cn (if ido = idn then "same" else "differ") (if bo = bn then "same" else "differs"))
+        end
       | "cont" :: _i :: name :: dm :: db :: co :: cn :: ido :: idn :: bo :: bn :: [] ->
         flush ();
         incr steps; incr cont_seen; bump ("cont:" ^ name); bump ("class:" ^ co);
